@@ -185,11 +185,32 @@ TermMatches(D, d, n) ==
      \/ DocHas(D, d, n.alts[i].f, n.alts[i].kind, t)
      \/ ("fz" \in DOMAIN n /\ n.fz.has /\ FuzzyHas(D, d, n.alts[i].f, n.alts[i].kind, t, n.fz))
 
+(* Regular expressions (anchored: the whole term must match).  Syntax trees arrive from the  *)
+(* harness: lit(c) | any | cls(cs) | cat(xs) | alt(xs) | star(x) | plus(x) | opt(x) over code *)
+(* points.  ReEnds(a, s, i) = the positions j such that a matches s[i .. j-1].               *)
+RECURSIVE ReEnds(_, _, _), ReCat(_, _, _, _), ReClosure(_, _, _)
+ReEnds(a, s, i) ==
+  CASE a.k = "lit" -> IF i <= Len(s) /\ s[i] = a.c THEN {i + 1} ELSE {}
+    [] a.k = "any" -> IF i <= Len(s) THEN {i + 1} ELSE {}
+    [] a.k = "cls" -> IF i <= Len(s) /\ s[i] \in SeqToSet(a.cs) THEN {i + 1} ELSE {}
+    [] a.k = "cat" -> ReCat(a.xs, 1, s, {i})
+    [] a.k = "alt" -> UNION {ReEnds(a.xs[n], s, i) : n \in DOMAIN a.xs}
+    [] a.k = "opt" -> {i} \cup ReEnds(a.x, s, i)
+    [] a.k = "star" -> ReClosure(a.x, s, {i})
+    [] a.k = "plus" -> ReClosure(a.x, s, ReEnds(a.x, s, i))
+ReCat(xs, n, s, cur) ==
+  IF n > Len(xs) THEN cur ELSE ReCat(xs, n + 1, s, UNION {ReEnds(xs[n], s, j) : j \in cur})
+ReClosure(x, s, cur) ==
+  LET next == cur \cup UNION {ReEnds(x, s, j) : j \in cur} IN
+  IF next = cur THEN cur ELSE ReClosure(x, s, next)
+ReMatch(a, s) == (Len(s) + 1) \in ReEnds(a, s, 1)
+
 (* dictionary terms an expansion node stands for, over the documents of    *)
 (* the index (all physical slots: deleted documents keep their terms)      *)
 ExpansionTerms(D, docs, n) ==
   LET dict == FieldTerms(D, docs, n.f, n.kind) IN
   IF n.k = "prefix" THEN {t \in dict : IsPrefixCp(D[n.p].cp, D[t].cp)}
+  ELSE IF n.k = "regex" THEN {t \in dict : ReMatch(n.ast, D[t].cp)}
   ELSE {t \in dict : WildMatch(D[n.p].cp, D[t].cp)}
 
 ExpansionMatches(D, docs, d, n) ==
@@ -221,7 +242,7 @@ RECURSIVE Matches(_, _, _, _)
 Matches(D, docs, d, q) ==
   CASE q.k = "all" -> TRUE
     [] q.k = "term" -> TermMatches(D, d, q)
-    [] q.k \in {"prefix", "wild"} -> ExpansionMatches(D, docs, d, q)
+    [] q.k \in {"prefix", "wild", "regex"} -> ExpansionMatches(D, docs, d, q)
     [] q.k = "phrase" -> PhraseMatches(d, q)
     [] q.k = "qs" ->
          /\ ~(q.groups = <<>> /\ q.phrases = <<>> /\ q.nots = <<>>)
@@ -250,7 +271,7 @@ Expected(D, docs, q, filters) ==
 (* dictionary terms an expansion matches is below its cap.                 *)
 RECURSIVE UnderCaps(_, _, _)
 UnderCaps(D, docs, q) ==
-  CASE q.k \in {"prefix", "wild"} -> Cardinality(ExpansionTerms(D, docs, q)) < q.cap
+  CASE q.k \in {"prefix", "wild", "regex"} -> Cardinality(ExpansionTerms(D, docs, q)) < q.cap
     [] q.k = "bool" -> /\ \A i \in DOMAIN q.must : UnderCaps(D, docs, q.must[i])
                        /\ \A i \in DOMAIN q.should : UnderCaps(D, docs, q.should[i])
                        /\ \A i \in DOMAIN q.mustnot : UnderCaps(D, docs, q.mustnot[i])
@@ -273,7 +294,7 @@ ScoredTerms(D, docs, q) ==
                                                  t \in SeqToSet(q.alts[i].toks)} : i \in DOMAIN q.alts}
                               ELSE {})
          ELSE {}
-    [] q.k \in {"prefix", "wild"} ->
+    [] q.k \in {"prefix", "wild", "regex"} ->
          IF q.sc /\ q.kind \in {"text", "kw"} THEN {<<q.f, q.kind, t>> : t \in ExpansionTerms(D, docs, q)} ELSE {}
     [] q.k = "qs" -> UNION {ScoredTerms(D, docs, q.groups[i]) : i \in DOMAIN q.groups}
     [] q.k = "bool" -> UNION ({ScoredTerms(D, docs, q.must[i]) : i \in DOMAIN q.must}
